@@ -16,6 +16,7 @@ import (
 	"bytes"
 	"crypto/sha512"
 	"fmt"
+	"strconv"
 	"strings"
 	"sync"
 
@@ -239,4 +240,89 @@ func g8RunVrfX(f []string) string {
 		fmt.Fprintf(&sb, " H=%s U=%s V=%s c'=%s", voc.nameP(vtrace[1]), voc.nameP(vtrace[3]), voc.nameP(vtrace[4]), voc.nameS(vtrace[6]))
 	}
 	return sb.String()
+}
+
+// ---- small-order public keys with a proof CRAFTED for them (op `vrf sok`)
+//
+// For a key Y of small order anybody can make a proof that satisfies the verification
+// equation: Gamma = identity, any s, and c = hashPoints(H, Gamma, s·B − c·Y, s·H) — c·Y depends
+// only on c mod ord(Y), so a few tries of s give a consistent c. Such a proof is accepted by a
+// verifier that lets the key through, hence the small-order guard must reject every one of the
+// eight small-order points, in every encoding the point decoder accepts.
+
+// the eight points of small order (orders 1, 2, 4, 4, 8, 8, 8, 8), canonical encodings, followed
+// by non-canonical encodings of small-order points (y = p, p+1 instead of 0, 1; x = 0 with the
+// sign bit set)
+var g8SmallOrderKeys = []string{
+	"0100000000000000000000000000000000000000000000000000000000000000",
+	"ecffffffffffffffffffffffffffffffffffffffffffffffffffffffffffff7f",
+	"0000000000000000000000000000000000000000000000000000000000000000",
+	"0000000000000000000000000000000000000000000000000000000000000080",
+	"26e8958fc2b227b045c3f489f2ef98f0d5dfac05d3c63339b13802886d53fc05",
+	"26e8958fc2b227b045c3f489f2ef98f0d5dfac05d3c63339b13802886d53fc85",
+	"c7176a703d4dd84fba3c0b760d10670f2a2053fa2c39ccc64ec7fd7792ac037a",
+	"c7176a703d4dd84fba3c0b760d10670f2a2053fa2c39ccc64ec7fd7792ac03fa",
+	// non-canonical
+	"edffffffffffffffffffffffffffffffffffffffffffffffffffffffffffff7f",
+	"edffffffffffffffffffffffffffffffffffffffffffffffffffffffffffffff",
+	"eeffffffffffffffffffffffffffffffffffffffffffffffffffffffffffff7f",
+	"eeffffffffffffffffffffffffffffffffffffffffffffffffffffffffffffff",
+	"0100000000000000000000000000000000000000000000000000000000000080",
+	"ecffffffffffffffffffffffffffffffffffffffffffffffffffffffffffffff",
+}
+
+func g8RunVrfSmallOrder(f []string) string {
+	if len(f) != 5 {
+		return "bad-op"
+	}
+	i, err := strconv.Atoi(f[2])
+	seed, ok1 := unhex(f[3])
+	alpha, ok2 := unhex(f[4])
+	if err != nil || i < 0 || i >= len(g8SmallOrderKeys) || !ok1 || !ok2 || len(seed) != 32 {
+		return "bad-op"
+	}
+	pk, _ := unhex(g8SmallOrderKeys[i])
+	proof := make([]byte, 80)
+	Y, perr := new(edwards25519.Point).SetBytes(pk)
+	if perr == nil {
+		// craft a proof that satisfies the verification equation for this key
+		hb, herr := vrf.VerifHashToCurve(pk, alpha)
+		if herr == nil {
+			H := g8Pt(hb)
+			id := edwards25519.NewIdentityPoint()
+			crafted := false
+			for try := 0; try < 400 && !crafted; try++ {
+				s := g8Uniform(append([]byte(fmt.Sprintf("g8-sok-%d/", try)), seed...))
+				sB := new(edwards25519.Point).ScalarBaseMult(s)
+				sH := new(edwards25519.Point).ScalarMult(s, H)
+				for r := 0; r < 8 && !crafted; r++ {
+					rb := make([]byte, 32)
+					rb[0] = byte(r)
+					rs, _ := edwards25519.NewScalar().SetCanonicalBytes(rb)
+					U := new(edwards25519.Point).Subtract(sB, new(edwards25519.Point).ScalarMult(rs, Y))
+					c := g8Challenge(H, id, U, sH)
+					// c·Y = r·Y ?  (Y has order dividing 8)
+					if new(edwards25519.Point).ScalarMult(c, Y).Equal(new(edwards25519.Point).ScalarMult(rs, Y)) == 1 {
+						copy(proof[0:32], id.Bytes())
+						copy(proof[32:48], c.Bytes()[:16])
+						copy(proof[48:80], s.Bytes())
+						crafted = true
+					}
+				}
+			}
+			if !crafted {
+				return "craft-failed"
+			}
+		}
+	}
+	_, verr := vrf.VerifyAndHash(pk, proof, alpha)
+	if verr == nil {
+		return "v=1 accepted-small-order-key"
+	}
+	k := c38ErrKind(verr)
+	if k == "smallorder" || k == "decode" {
+		// (which of the two depends on whether the point decoder accepts the encoding)
+		return "v=0 err=rejectedkey"
+	}
+	return "v=0 err=" + k
 }
